@@ -65,7 +65,9 @@ Theorem decrypt_short_is_error et key usage ct :
   (length ct < conf_len et + mac_len et)%nat -> exists e, decrypt et key usage ct = Err e.
 Proof.
   intros H. unfold decrypt. destruct (et_family et) as [[| | |]|] eqn:F; eauto.
-  1-3: destruct (Nat.ltb_spec (length ct) (conf_len et + mac_len et)); [eauto|lia].
+  1,3: destruct (Nat.ltb_spec (length ct) (conf_len et + mac_len et)); [eauto|lia].
+  1: destruct (negb _); [eauto|]; destruct (Nat.ltb_spec (length ct) (conf_len et + mac_len et)); [eauto|lia].
+  destruct (negb _); [eauto|].
   unfold rc4_decrypt. unfold et_family in F. unfold conf_len, mac_len in H.
   destruct ((et =? 17) || (et =? 18)); [discriminate|]. destruct ((et =? 19) || (et =? 20)) eqn:E; [discriminate|].
   destruct (et =? 16) eqn:E16; [discriminate|]. destruct (et =? 23) eqn:E23; [|discriminate].
@@ -101,7 +103,8 @@ Proof.
     apply bind_no_panic; [apply cts_decrypt_no_panic|intros pt].
     apply bind_no_panic; [apply integrity_hash_no_panic|intros ih].
     destruct (beq_bytes ih _); reflexivity.
-  - destruct (length ct <? conf_len et + mac_len et)%nat; [reflexivity|].
+  - destruct (negb _); [reflexivity|].
+    destruct (length ct <? conf_len et + mac_len et)%nat; [reflexivity|].
     apply bind_no_panic; [apply derive_key_no_panic|intros ke].
     apply bind_no_panic; [apply cts_decrypt_no_panic|intros pt].
     apply bind_no_panic; [apply integrity_hash_no_panic|intros ih].
@@ -111,7 +114,8 @@ Proof.
     destruct (negb _); [reflexivity|].
     apply bind_no_panic; [apply integrity_hash_no_panic|intros ih].
     destruct (beq_bytes ih _); reflexivity.
-  - unfold rc4_decrypt. repeat match goal with |- context [if ?c then _ else _] => destruct c; try reflexivity end.
+  - destruct (negb _); [reflexivity|].
+    unfold rc4_decrypt. repeat match goal with |- context [if ?c then _ else _] => destruct c; try reflexivity end.
 Qed.
 
 (* ---- C05: RFC 4757 message types ---- *)
@@ -142,3 +146,19 @@ Qed.
 Example rc4_msg_type_128 : rc4_msg_type 128 = [128; 0; 0; 0] /\ rc4_msg_type 3 = [8; 0; 0; 0]
                            /\ rc4_msg_type 9 = [8;0;0;0] /\ rc4_msg_type 23 = [13;0;0;0].
 Proof. repeat split. Qed.
+
+(* ---- C06: a key of another size than the etype's is refused by every family ---- *)
+Theorem decrypt_wrong_key_size_is_error et key usage ct :
+  length key <> key_len et -> exists e, decrypt et key usage ct = Err e.
+Proof.
+  intros H. apply Nat.eqb_neq in H. unfold decrypt.
+  destruct (et_family et) as [[| | |]|] eqn:F; [| | | |eauto].
+  - destruct (_ <? _)%nat; [eauto|]. unfold derive_key. rewrite F, H. cbn [negb bind]. eauto.
+  - rewrite H. cbn [negb]. eauto.
+  - destruct (_ <? _)%nat; [eauto|]. unfold derive_key. rewrite F.
+    assert (et = 16) as -> by (unfold et_family in F;
+      destruct ((et =? 17) || (et =? 18)); [discriminate|]; destruct ((et =? 19) || (et =? 20)); [discriminate|];
+      destruct (Z.eqb_spec et 16); [assumption|]; destruct (et =? 23); discriminate).
+    change (key_len 16) with 24%nat in H. rewrite H. cbn [negb bind]. eauto.
+  - rewrite H. cbn [negb]. eauto.
+Qed.
